@@ -1,0 +1,39 @@
+// Copyright Amazon.com, Inc. or its affiliates. All Rights Reserved.
+// SPDX-License-Identifier: Apache-2.0
+
+//! Verification hook runtime. Only compiled with `--cfg metrique_verif`; never part of a normal build.
+//!
+//! A *point* is a named place in the code (a linearization point or a scheduling point of the
+//! TLA+ specification that models that code). When no hook is installed a point costs one relaxed
+//! atomic load. A verification harness may install a hook that logs the point, perturbs the
+//! schedule, or blocks the calling thread until a controller grants it.
+
+use std::sync::{
+    Arc, RwLock,
+    atomic::{AtomicBool, Ordering},
+};
+
+/// The type of an installed hook: called with the point's name and its scalar arguments.
+pub type Hook = Arc<dyn Fn(&'static str, &[i64]) + Send + Sync>;
+
+static ENABLED: AtomicBool = AtomicBool::new(false);
+static HOOK: RwLock<Option<Hook>> = RwLock::new(None);
+
+/// Install (or, with `None`, remove) the process-wide hook.
+pub fn install(hook: Option<Hook>) {
+    let mut guard = HOOK.write().unwrap_or_else(|e| e.into_inner());
+    ENABLED.store(hook.is_some(), Ordering::SeqCst);
+    *guard = hook;
+}
+
+/// A verification point. Does nothing unless a hook is installed.
+#[inline]
+pub fn point(name: &'static str, args: &[i64]) {
+    if !ENABLED.load(Ordering::Relaxed) {
+        return;
+    }
+    let hook = HOOK.read().unwrap_or_else(|e| e.into_inner()).clone();
+    if let Some(hook) = hook {
+        hook(name, args);
+    }
+}
